@@ -493,9 +493,14 @@ def rename_values(
             renamed.append((value, old_name, old_tensor_name))
     except BaseException:
         for value, old_name, old_tensor_name in reversed(renamed):
+            # The tensor is detached meanwhile: it had its own name before (which need
+            # not be the name of the value) and must not take part in restoring the value
+            tensor = value.const_value
+            value.const_value = None
             value.name = old_name
-            if value.const_value is not None:
-                value.const_value.name = old_tensor_name
+            value.const_value = tensor
+            if tensor is not None:
+                tensor.name = old_tensor_name
         for graph, initializers in original_initializers.items():
             for value in initializers:
                 graph.initializers.pop(value.name, None)
